@@ -380,7 +380,7 @@ pub fn run(ctx: &Ctx) {
         }
     }
     // ---- (iii) freed heap inside constant-time multiscalar multiplication and batch inversion
-    let sizes: Vec<usize> = if quick { vec![0, 1, 2, 3, 4] } else { vec![0, 1, 2, 3, 4, 5, 6, 7, 8, 33, 64] };
+    let sizes: Vec<usize> = if quick { vec![0, 1, 2, 3, 4, 5, 8, 17] } else { vec![0, 1, 2, 3, 4, 5, 6, 7, 8, 33, 64] };
     ctx.bound("multiscalar_sizes", json!(sizes));
     let pool: Vec<U> = {
         let lm = l();
